@@ -114,7 +114,7 @@ def unescape_tla_string(s):
 
 def tv_start(spec, trace, tag, timeout=900):
     """Starts one trace-validation JVM; returns a handle for tv_finish."""
-    meta = os.path.join(OUT, "tlc", tag)
+    meta = os.path.join(OUT, "tlc", "%s_%d" % (tag, os.getpid()))
     shutil.rmtree(meta, ignore_errors=True)
     os.makedirs(meta, exist_ok=True)
     env = dict(os.environ)
@@ -171,7 +171,7 @@ _MC_STATES = re.compile(r"(\d+) states generated, (\d+) distinct states found")
 
 def mc_run(module, cfg, tag, workers=8, timeout=1800, heap="8g", expect_violation=False):
     """Runs a bounded model-checking instance (L1). Returns dict(states, transitions, ok, out)."""
-    meta = os.path.join(OUT, "tlc", tag)
+    meta = os.path.join(OUT, "tlc", "%s_%d" % (tag, os.getpid()))
     shutil.rmtree(meta, ignore_errors=True)
     os.makedirs(meta, exist_ok=True)
     cmd = java_tlc(workers, heap) + ["-nowarning", "-workers", str(workers), "-metadir", meta, "-cleanup",
@@ -230,18 +230,19 @@ def tlc_generate(module, cfg, tag, timeout=3000):
     os.makedirs(cdir, exist_ok=True)
     outp = os.path.join(cdir, key + ".ndjson")
     if not os.path.exists(outp):
-        meta = os.path.join(OUT, "tlc", tag)
+        meta = os.path.join(OUT, "tlc", "%s_%d" % (tag, os.getpid()))
         shutil.rmtree(meta, ignore_errors=True)
         os.makedirs(meta, exist_ok=True)
         env = dict(os.environ)
-        env["GEN_OUT"] = outp + ".tmp"
+        tmp = "%s.%d.tmp" % (outp, os.getpid())
+        env["GEN_OUT"] = tmp
         cmd = ["java", "-XX:+UseSerialGC", "-Xmx8g", "-Xss512m", "-cp", JARS, "tlc2.TLC", "-nowarning", "-workers", "1",
                "-metadir", meta, "-cleanup", "-noGenerateSpecTE", "-config", cfg, module + ".tla"]
         t0 = time.time()
         p = subprocess.run(cmd, cwd=SPEC, env=env, stdout=subprocess.PIPE, stderr=subprocess.STDOUT, text=True, timeout=timeout)
         shutil.rmtree(meta, ignore_errors=True)
-        if "GEN-COUNT" not in p.stdout or not os.path.exists(outp + ".tmp"):
+        if "GEN-COUNT" not in p.stdout or not os.path.exists(tmp):
             raise ToolError("case generation failed (%s/%s):\n%s" % (module, cfg, p.stdout[-1500:]))
-        os.replace(outp + ".tmp", outp)
+        os.replace(tmp, outp)
         log("[GEN] %s/%s %.0fs" % (module, cfg, time.time() - t0))
     return read_ndjson(outp)
